@@ -141,3 +141,202 @@ def make_phantoms_post(S, I, variant):
 for _d in SCRIPTS:
     if "sizes)[n3]" in _d["name"]:
         _d["thorough_only"] = True
+
+
+# ------------------------------------------------------------------ C07: consistent_sampling, UNBOUNDED number of cards (loop invariant)
+
+class SamplingInvariant:
+    """loop 2 (the `while`) of CVR.consistent_sampling, from-scratch call, N cards (symbolic), the contests of CONTESTS.
+    Ghosts: sigma = the sort permutation (contract of sorted), has_c(j) = card sigma(j) lists contest c,
+    cnt_c(k) = #{j < k : has_c(j)}  (ghost sum).
+    Invariant at position inx (0 <= inx <= N):
+      current_sizes[c] = min(n_c, cnt_c(inx));
+      len(sampled) = L with 0 <= L <= inx;
+      if current_sizes[c] >= 1: the threshold of c is the sample number of card sigma(w_c) for a witness w_c < inx with
+                                has_c(w_c) and cnt_c(w_c) = current_sizes[c] - 1   (i.e. of c's current_sizes[c]-th card).
+    Per iteration (checked in the preservation step): card sigma(inx) is appended exactly when it lists a contest whose first
+    n_c cards are not yet complete, i.e.  take(inx) = OR_c has_c(inx) and cnt_c(inx) < n_c."""
+
+    def __init__(self, S, cards, cons, sizes, N):
+        self.S, self.cards, self.cons, self.sizes, self.N = S, cards, cons, sizes, N
+        self.post = None
+
+    def setup(self, env):
+        sci = env.vars["sorted_cvr_indices"]
+        self.sigma = lambda j: sci.at(j)
+        sp = getattr(sci, "sorted_perm", None)
+        self.S.holds("the cards are visited in the order sorted(...) by increasing sample number gives", sp is not None and not sp.keyvals[2])
+        if sp is not None:
+            jj = z3.Int(ctx().fresh("jj"))
+            self.S.holds("sort key = the card's sample number; visited index = the permutation's",
+                         band(bterm_eq(sp.key_at(jj), self.cards.at(sp.perm_at(jj).t).attrs["sample_num"]),
+                              icmp("==", sci.at(jj), sp.perm_at(jj))), extra=[jj >= 0, jj < zi(self.N)])
+        cards = self.cards
+        self.has = {c: (lambda c: (lambda j: has_contest(cards.at(iterm(self.sigma(j))), c)))(c) for c in CONTESTS}
+        self.cnt = {}
+        for c in CONTESTS:
+            ind = SymArr(self.N, (lambda c: (lambda j: mkint(iite(self.has[c](j), 1, 0))))(c), "int")
+            self.cnt[c] = ind.fold("+")
+            # precondition: the sample size of a contest does not exceed the number of cards listing it (otherwise the
+            # real code runs off the end of the list); the count is taken along the sorted order (a permutation: same count)
+            ctx().assume(icmp("<=", self.sizes[c], self.cnt[c].at(self.N)))
+        self.take = lambda j: bor(*[band(self.has[cid](j), icmp("<", self.cnt[cid].at(j), self.sizes[cid])) for cid in CONTESTS])
+        self.T = SymArr(self.N, lambda j: mkint(iite(self.take(j), 1, 0)), "int").fold("+")
+
+    def sel_ok(self, sel, L, POS, p, inx):
+        """the p-th selected card is sigma(POS(p)), where POS(p) < inx is the position of the p-th taken card"""
+        q = POS(p)
+        return bimp(band(icmp(">=", p, 0), icmp("<", p, L)),
+                    band(icmp(">=", q, 0), icmp("<", q, inx), self.take(q), icmp("==", self.T.at(q), p),
+                         icmp("==", sel.at(p), self.sigma(q))))
+
+    def state_ok(self, env, inx, wit):
+        out = []
+        cs = env.vars["current_sizes"]
+        for c in CONTESTS:
+            cur = cs[c] if c in cs else 0
+            cn = self.cnt[c].at(inx)
+            out.append((f"[{c}] current size = min(n_c, cards of c among the first inx)",
+                        icmp("==", cur, iite(icmp("<", self.sizes[c], cn), iterm(self.sizes[c]), iterm(cn)))))
+            w = wit[c]
+            thr = self.cons[c].attrs["sample_threshold"]
+            sn = self.cards.at(iterm(self.sigma(w))).attrs["sample_num"]
+            out.append((f"[{c}] threshold = sample number of c's current-size-th card",
+                        bimp(icmp(">=", cur, 1), band(icmp(">=", w, 0), icmp("<", w, inx), self.has[c](w),
+                                                      icmp("==", self.cnt[c].at(w), isub(cur, 1)),
+                                                      bterm_eq(thr, sn)))))
+        L = env.vars["sampled_cvr_indices"].length if isinstance(env.vars["sampled_cvr_indices"], SymArr) else len(env.vars["sampled_cvr_indices"])
+        out.append(("selected so far: between 0 and inx cards", band(icmp(">=", L, 0), icmp("<=", L, inx))))
+        out.append(("number selected = number of taken positions before inx", icmp("==", L, self.T.at(inx))))
+        out.append(("position within the list", band(icmp(">=", inx, 0), icmp("<=", inx, self.N))))
+        return out
+
+    def run_while(self, I, st, env, in_class):
+        from pyvc.interp import CutPath
+        S = self.S
+        c = ctx()
+        self.setup(env)
+        wit0 = {cid: z3.IntVal(0) for cid in CONTESTS}
+        for nm, g in self.state_ok(env, 0, wit0):
+            S.holds("sampling.inv.entry: " + nm, g)
+        mode = c.decide(z3.Bool(c.fresh("sampling_branch_preserve")))
+        inx = z3.Int(c.fresh("inx"))
+        # havoc the loop state
+        cs = env.vars["current_sizes"]
+        wit = {}
+        for cid in CONTESTS:
+            cs[cid] = SInt(z3.Int(c.fresh(f"cur_{cid}")))
+            wit[cid] = z3.Int(c.fresh(f"w_{cid}"))
+            self.cons[cid].attrs["sample_threshold"] = XR.finvar(c.fresh(f"thr_{cid}"))
+        L0 = z3.Int(c.fresh("L"))
+        SEL = z3.Function(c.fresh("SEL"), z3.IntSort(), z3.IntSort())
+        sel = SymArr(L0, lambda p: SInt(SEL(zi(p))), "int")
+        sel.is_list = True
+        env.vars["sampled_cvr_indices"] = sel
+        env.vars["inx"] = SInt(inx)
+        POSf = z3.Function(c.fresh("POS"), z3.IntSort(), z3.IntSort())
+        POS = lambda p: POSf(zi(p))
+        if mode:
+            for nm, g in self.state_ok(env, inx, wit):
+                c.assume(g)
+            cond = I.truth(I.eval(st.test, env))
+            if not cond:
+                raise CutPath()          # the exit case is handled by the other branch
+            before = {cid: cs[cid] for cid in CONTESTS}
+            I.exec_block(st.body, env, in_class)
+            sel2 = env.vars["sampled_cvr_indices"]
+            take = bor(*[band(self.has[cid](inx), icmp("<", self.cnt[cid].at(inx), self.sizes[cid])) for cid in CONTESTS])
+            S.holds("card sigma(inx) is appended exactly when it lists a contest whose first n_c cards are not complete",
+                    band(icmp("==", sel2.length, iadd(L0, iite(take, 1, 0))),
+                         bimp(take, icmp("==", sel2.at(L0), self.sigma(inx)))))
+            kk = z3.Int(c.fresh("selk"))
+            S.holds("earlier selections are unchanged", icmp("==", sel2.at(kk), sel.at(kk)), extra=[kk >= 0, kk < L0])
+            # quantified clause of the invariant, hypothesis instantiated at the goal's Skolem index kk
+            POS2 = lambda p: z3.If(zi(p) == L0, inx, POSf(zi(p)))
+            S.holds("sampling.inv.preserved: the p-th selected card is the p-th taken card of the sorted list (for all p)",
+                    self.sel_ok(sel2, sel2.length, POS2, kk, inx + 1), extra=[zb(self.sel_ok(sel, L0, POS, kk, inx))])
+            wit2 = {}
+            for cid in CONTESTS:
+                counted = band(self.has[cid](inx), icmp("<", self.cnt[cid].at(inx), self.sizes[cid]))
+                wit2[cid] = z3.If(zb(counted), inx, wit[cid])
+            S.holds("position advances by one", icmp("==", env.vars["inx"], inx + 1))
+            for nm, g in self.state_ok(env, inx + 1, wit2):
+                S.holds("sampling.inv.preserved: " + nm, g)
+            raise CutPath()
+        # exit: invariant and negated loop condition
+        for nm, g in self.state_ok(env, inx, wit):
+            c.assume(g)
+        if I.truth(I.eval(st.test, env)):
+            raise CutPath()
+        self.post = {"inx": inx, "wit": wit, "sel": sel, "POS": POS, "L": L0}
+
+
+def bterm_eq(a, b):
+    if a is None or b is None:
+        return a is b
+    return xsame(a, b) if isinstance(a, XR) or isinstance(b, XR) else (a is b)
+
+
+@script(["C07"], "CVR.consistent_sampling/loop invariant (unbounded number of cards, 2 contests)")
+def consistent_sampling_unbounded(S, I, variant):
+    c = ctx()
+    N = S.integer("N", lo=0)
+    CVR = I.get(MOD, "CVR")
+    H = {cid: z3.Function(f"lists_{cid}", z3.IntSort(), z3.BoolSort()) for cid in CONTESTS}
+    SN = z3.Function("sample_num", z3.IntSort(), z3.RealSort())
+
+    def make(i):
+        votes = OptDict(list(CONTESTS), {cid: mkbool(H[cid](i)) for cid in CONTESTS}, {cid: {} for cid in CONTESTS})
+        return Obj(CVR, {"id": None, "votes": votes, "phantom": False, "pool": False, "tally_pool": None,
+                         "sample_num": XR(SN(i)), "p": None, "sampled": False, "card_in_batch": None})
+
+    cards = SymObjList(iterm(N), make)
+    sizes, cons = {}, {}
+    for cid in CONTESTS:
+        sizes[cid] = S.integer(f"size_{cid}", lo=0)
+        cons[cid] = mk_contest(I, id=cid, sample_size=sizes[cid], cards=10, candidates=["x"], winner=["x"])
+    inv = SamplingInvariant(S, cards, cons, sizes, iterm(N))
+    I.invariants[("CVR.consistent_sampling", 2)] = inv
+    # the final flag-setting loop is abstracted away here (it is covered by the structure-bounded scripts): stop after the while
+    I.invariants[("CVR.consistent_sampling", 4)] = StopHere(inv)
+    fn = I.get(MOD, "CVR.consistent_sampling")
+    from pyvc.interp import CutPath
+    S.native_desc = None
+    # precondition: sizes do not exceed the cards available; stated over the ghost counts once the permutation exists (inside the invariant)
+    inv.pre_sizes = True
+    try:
+        r, exc = guard(S, I, lambda: I.call(fn, [], {"cvr_list": cards, "contests": cons}))
+    except CutPath:
+        return
+    except StopHere.Reached:
+        pass
+    if inv.post is None:
+        return
+    inx, wit = inv.post["inx"], inv.post["wit"]
+    p = z3.Int(c.fresh("p"))
+    c.assume(zb(inv.sel_ok(inv.post["sel"], inv.post["L"], inv.post["POS"], p, inx)))     # invariant clause at an arbitrary p
+    q = inv.post["POS"](p)
+    S.holds("exit: the p-th selected card (any p) is a card among the first n_c cards listing some contest c, taken in sorted order",
+            bimp(band(icmp(">=", p, 0), icmp("<", p, inv.post["L"])),
+                 band(icmp("==", inv.post["sel"].at(p), inv.sigma(q)), inv.take(q), icmp("==", inv.T.at(q), p))))
+    S.holds("exit: number selected = number of taken positions", icmp("==", inv.post["L"], inv.T.at(inx)))
+    for cid in CONTESTS:
+        w = wit[cid]
+        S.holds(f"[{cid}] exit: threshold = sample number of the contest's n_c-th card in sorted order",
+                bimp(icmp(">=", sizes[cid], 1),
+                     band(inv.has[cid](w), icmp("==", inv.cnt[cid].at(w), isub(sizes[cid], 1)),
+                          bterm_eq(cons[cid].attrs["sample_threshold"], cards.at(iterm(inv.sigma(w))).attrs["sample_num"]))))
+    for cid in CONTESTS:
+        S.holds(f"[{cid}] on exit the contest has its n_c cards (given n_c <= cards listing c)",
+                bimp(icmp("<=", sizes[cid], inv.cnt[cid].at(iterm(N))), icmp(">=", inv.cnt[cid].at(inx), sizes[cid])))
+
+
+class StopHere:
+    class Reached(Exception):
+        pass
+
+    def __init__(self, inv):
+        self.inv = inv
+
+    def run_for(self, I, st, env, in_class):
+        raise StopHere.Reached()
